@@ -7,7 +7,7 @@ From Flocq Require Import Core BinarySingleNaN.
 From SV Require Import Num.Mod360 Num.Mod360Proofs Num.AngleSites Num.AngleSitesProofs
                        Num.Dec6 Num.Dec6Proofs Num.Dec6CarveProofs Num.VecText Num.VecTextProofs Num.Mod360Id Num.VecTextFloat SM.FrozenOps SM.FrozenOpsProofs SM.FrozenCopy SM.FrozenCopyProofs
                        SM.FrozenCopyValue SM.FrozenCopyValueProofs Num.AngleText Num.AngleTextProofs
-                       Num.AngleCtor Num.AngleCtorProofs SM.FrozenHash SM.FrozenHashProofs Num.SpecStrip Num.SpecStripProofs Num.C05Whole.
+                       Num.AngleCtor Num.AngleCtorProofs SM.FrozenHash SM.FrozenHashProofs Num.SpecStrip Num.SpecStripProofs Num.C05Whole SM.FrozenEq SM.FrozenEqProofs.
 Import ListNotations.
 
 (** ------------------------------------------------------------------ (a) range *)
@@ -177,6 +177,26 @@ Theorem c05_frozen_hash_stable : forall (V X H : Type) (get : V -> string -> X) 
   exists r', nth_error (FrozenOps.run V table h st) i = Some r' /\
              hash_of V X H get hf ident rows i r' = hash_of V X H get hf ident rows i r.
 Proof. exact frozen_hash_stable. Qed.
+
+(** == (round 4).  [eq_shapes] = the per-slot comparisons of __eq__ on two objects of one family, read from the source.
+    For every table that passes [eq_table_ok] (every slot of the family compared, each comparison accepting a difference of
+    zero): two objects whose slots hold the same finite values (rationals) compare equal - with the copy theorems this
+    is "a copy == its source" *)
+Theorem c05_eq_same_value : forall rows, eq_table_ok rows = true ->
+  forall fam l, In (fam, l) rows -> forall a b : string -> QArith_base.Q,
+  (forall s, In s (family_slots fam) -> QArith_base.Qeq (a s) (b s)) -> eq_eval l a b = true.
+Proof. exact eq_same_value. Qed.
+
+Theorem c05_eq_reads_every_slot : forall rows, eq_table_ok rows = true ->
+  forall fam l, In (fam, l) rows -> forall s, In s (family_slots fam) -> In s (map fst l).
+Proof. exact eq_reads_every_slot. Qed.
+
+(** a strict test against a tolerance of zero rejects even identical values (own mutation OM10) *)
+Theorem c05_eq_strict_zero_refuted :
+  let rows := [("AngleBase"%string, [("_pitch"%string, CTol true (QArith_base.Qmake 0 1)); ("_yaw"%string, CTol false (QArith_base.Qmake 1 1000000)); ("_roll"%string, CTol false (QArith_base.Qmake 1 1000000))])] in
+  eq_table_ok rows = false /\ bad_eq_rows rows = ["AngleBase"%string] /\
+  eq_eval (snd (hd (""%string, []) rows)) (fun _ => QArith_base.Qmake 90 1) (fun _ => QArith_base.Qmake 90 1) = false.
+Proof. exact eq_strict_zero_refuted. Qed.
 
 (** in-place operators: for every census [inplace_rows] that passes, no class of a frozen object (nor a base class
     of one) defines an __iOP__ method: `frozen op= y` can only rebind the name to the result of the binary operator *)
